@@ -353,6 +353,13 @@ func evalC13(op string, args []string) string {
 				d2 = d1 + "?"
 			}
 		}
+		// the request flavour of the dumper, an empty dictionary, a packet without attributes
+		req := &radius.Request{Packet: p, LocalAddr: labAddr{"local"}, RemoteAddr: labAddr{"remote"}}
+		if debug.DumpRequestString(&debug.Config{Dictionary: debug.IncludedDictionary}, req) != debug.DumpRequestString(&debug.Config{Dictionary: debug.IncludedDictionary}, req) {
+			d2 = d1 + "?"
+		}
+		debug.DumpRequest(io.Discard, &debug.Config{Dictionary: &dictionary.Dictionary{}}, req)
+		debug.DumpString(&debug.Config{Dictionary: &dictionary.Dictionary{}}, &radius.Packet{Code: p.Code})
 		flag("dump-mutates-packet", snapshot(p) != snap)
 		flag("dump-not-repeatable", d1 != d2)
 		flag("input-changed-at-end", inputChanged())
